@@ -565,3 +565,10 @@ M('k35-sections-lowercased', ['C20', 'C13', 'C11'], IN, "                self.co
   'sections are renamed to lower case on load: an existing lower-case section is cleared first (seed C20-N)')
 M('l4-demand-inside-assert', ['C04'], Y23 + 'f1040_sb.py', "                v['7a']\n                v['7b']\n                v['8']\n", "                assert not (v['7a'] or v['7b'] or v['8'])\n", 'L4',
   'the demand-only reads of Part III are folded into an assert, which python -O strips (seed C04-N)')
+_STEP_OLD = "def figure_tax_table(taxable_amount, filing_status_column):\n    for row in TAX_TABLE:\n        if taxable_amount >= row[0] and taxable_amount < row[1]:\n            return float(row[filing_status_column])\n"
+_STEP_NEW = ("TAX_TABLE_STEP = %d\nTAX_TABLE_STEP_ROW = []\nfor _index, _row in enumerate(TAX_TABLE):\n    while len(TAX_TABLE_STEP_ROW) * TAX_TABLE_STEP < _row[1]:\n        TAX_TABLE_STEP_ROW.append(_index)\n\n"
+             "def figure_tax_table(taxable_amount, filing_status_column):\n    step = int(taxable_amount // TAX_TABLE_STEP)\n    if 0 <= step < len(TAX_TABLE_STEP_ROW):\n        row = TAX_TABLE[TAX_TABLE_STEP_ROW[step]]\n        return float(row[filing_status_column])\n")
+M('c07-step-index-25', ['C07'], Y22 + 'f1040_figure_tax.py', _STEP_OLD, _STEP_NEW % 25, 'D2',
+  'the table scan is replaced by an index list with one entry per $25 built at import time: the three irregular rows under $25 collapse (seed C07-N)')
+M('c07-step-index-5', ['C07'], Y22 + 'f1040_figure_tax.py', _STEP_OLD, _STEP_NEW % 5, None,
+  'the same index list with one entry per $5, the common divisor of all row boundaries: same function', expect='silent')
